@@ -1,7 +1,7 @@
 (* Property C04 - programs accepted by analysis are safe to evaluate. *)
 From Coq Require Import List ZArith Bool Permutation.
 From MV Require Import Datalog.Syntax Datalog.Interp Datalog.Solve Datalog.Lfp Analysis.RuleCheck Analysis.Declarative
-  Analysis.RuleCheckProofs Analysis.WildcardProofs Analysis.SafeEvalProofs Analysis.FaithfulProofs.
+  Analysis.RuleCheckProofs Analysis.WildcardProofs Analysis.SafeEvalProofs Analysis.FaithfulProofs Analysis.CompleteProofs Analysis.FactsProofs.
 Import ListNotations.
 Open Scope Z_scope.
 
@@ -66,28 +66,22 @@ Theorem rewrite_perm : forall c : clause,
 Proof. intros c. split; [apply rewrite_perm_body|split; [apply rewrite_head|apply rewrite_let]]. Qed.
 Print Assumptions rewrite_perm.
 
-(* ---- accepted_faithful. Full statement (not finished):
-     forall c Sneg I, check (rewrite c) = true ->
-       exists sols, solve Sneg (fun _ => I) 0 (cbody (replace_wildcards (rewrite c))) [[]] = Some sols
-                    (or the only error is a function/comparison applied to ground arguments of the wrong type) /\
-       (forall s, In s sols -> every head variable has a value in s) /\
-       (forall sigma, decl_sol Sneg I c sigma <-> exists s, In s sols /\ s restricted to named_vars c = sigma).
-   Proved part: for every accepted clause cr (the clause handed to CheckRule, i.e. the rewritten
-   one) that is alias-free (C01's engine model has no variable-variable aliasing), on EVERY store
-   and delta selection, every solution the left-to-right join computes gives a value to every
-   head variable that the let-transform does not define. The invariant behind it
-   (RuleCheckProofs.check_body_inv) is stronger: after each premise every variable CheckRule counts
-   as bound has a value in every partial solution - so a comparison, an inequality or a negated
-   atom of an accepted clause is never evaluated with a named variable that has no value.
-   The equality with the declarative set is checked on samples by Run/C04.v (judge codes 5/6). *)
-Theorem accepted_faithful_partial :
+(* ---- accepted_binds_head_vars (the first, weaker form of accepted_faithful; the full theorems
+   accepted_no_unbound_error, accepted_head_ground, accepted_faithful, accepted_faithful_facts are
+   below). For every accepted clause cr (the clause handed to CheckRule, i.e. the rewritten one) that
+   is alias-free (C01's engine model has no variable-variable aliasing), on EVERY store and delta
+   selection, every solution the left-to-right join computes gives a value to every head variable
+   that the let-transform does not define. The invariant behind it (RuleCheckProofs.check_body_inv)
+   is stronger: after each premise every variable CheckRule counts as bound has a value in every
+   partial solution. *)
+Theorem accepted_binds_head_vars :
   forall (cr : clause) (Sneg : list fact) (sel : nat -> list fact) (sols : list subst),
   check cr = true -> alias_free cr = true ->
   solve Sneg sel 0 (cbody (replace_wildcards cr)) [[]] = Some sols ->
   forall s, In s sols ->
   forall x, In x (atom_vars (chead cr)) -> ~ In x (let_defs cr) -> lookup x s <> None.
 Proof. exact accepted_binds_lemma. Qed.
-Print Assumptions accepted_faithful_partial.
+Print Assumptions accepted_binds_head_vars.
 
 Example accepted_faithful_hyps :
   check (rewrite f3c) = true /\ alias_free (rewrite f3c) = true /\
@@ -95,21 +89,20 @@ Example accepted_faithful_hyps :
     = Some [[(0, num 2); (1, num 1)]].
 Proof. vm_compute. repeat split; reflexivity. Qed.
 
-(* ---- unsafe_rejected. Full statement: as below with the conditions phrased on the clause as
-   written (before rewrite and wildcard replacement). Proved part: phrased on the clause cr that
-   CheckRule is given and its wildcard-replaced body (rewrite only permutes the body, theorem
-   rewrite_perm; replace_wildcards only renames wildcards to fresh variables). If a variable x
-   occurs in no positive atom and in no equality of the body (nothing can give it a value), and
-   x is a head variable that the let-transform does not define, or an operand of a comparison or of
-   an inequality, or a variable of a non-wildcard argument of a negated atom, then cr is rejected. *)
-Theorem unsafe_rejected_partial :
+(* ---- unsafe_rejected_replaced: the rejection theorem phrased on the clause cr that CheckRule is
+   given and its wildcard-replaced body (the form on the clause as written is unsafe_rejected
+   below). If a variable x occurs in no positive atom and in no equality of the body (nothing can
+   give it a value), and x is a head variable that the let-transform does not define, or an operand
+   of a comparison or of an inequality, or a variable of a non-wildcard argument of a negated atom,
+   then cr is rejected. *)
+Theorem unsafe_rejected_replaced :
   forall (cr : clause) (x : Z),
   ~ In x (flat_map binder_vars (cbody (replace_wildcards cr))) ->
   (In x (atom_vars (chead cr)) /\ ~ In x (let_defs cr))
   \/ (exists o p, In (o, p) (combine (cbody cr) (cbody (replace_wildcards cr))) /\ needs o p x) ->
   check cr = false.
 Proof. exact unsafe_rejected_lemma. Qed.
-Print Assumptions unsafe_rejected_partial.
+Print Assumptions unsafe_rejected_replaced.
 
 Example unsafe_rejected_hyps :
   (* F3b: V1 of !p3(V1) occurs in no binder *)
@@ -208,6 +201,44 @@ Example accepted_head_ground_hyps :
   solve [] (fun _ => [(1, [num 4])]) 0 (cbody (replace_wildcards (rewrite letc))) [[]] = Some [[(1, num 4)]] /\
   emit_head (rewrite letc) [(1, num 4)] = Some (0, [num 9; num 5]).
 Proof. vm_compute. repeat split; reflexivity. Qed.
+(* and neither let_ordered nor head_apps_ok can be dropped: findings N64 and N65
+   p0(A) :- p1(X) |> let A = fn:plus(B,1), let B = fn:plus(X,1).     p0(fn:plus(Y,1)) :- p1(X) |> let Y = fn:plus(X,1). *)
+Definition n64 := mkClause (mkAtom 0 [v 0]) [PAtom (mkAtom 1 [v 2])]
+  [(0, TApp FPlus [v 1; TConst (num 1)]); (1, TApp FPlus [v 2; TConst (num 1)])].
+Definition n65 := mkClause (mkAtom 0 [TApp FPlus [v 0; TConst (num 1)]]) [PAtom (mkAtom 1 [v 2])]
+  [(0, TApp FPlus [v 2; TConst (num 1)])].
+Example n64_n65_accepted_head_fails :
+  (accepted n64 = true /\ alias_free (rewrite n64) = true /\ head_apps_ok (rewrite n64) = true /\
+   let_ordered (rewrite n64) = false /\ emit_head (rewrite n64) [(2, num 4)] = None)
+  /\ (accepted n65 = true /\ alias_free (rewrite n65) = true /\ let_ordered (rewrite n65) = true /\
+      head_apps_ok (rewrite n65) = false /\ emit_head (rewrite n65) [(2, num 4)] = None).
+Proof. vm_compute. repeat split; reflexivity. Qed.
+
+(* ---- accepted_eval_no_unbound_error: the two previous theorems together, for the whole clause. If
+   C01's eval_clause fails on an accepted clause (outside aliasing and the findings N61, N64, N65),
+   then a function or comparison rejected GROUND arguments: in a body premise under a partial
+   solution, or in the head or a let-statement under a complete solution of the body. Evaluation
+   of an accepted clause never fails - and never emits a non-ground fact - for want of a value. *)
+Theorem accepted_eval_no_unbound_error :
+  forall (cr : clause) (Sneg : list fact) (sel : nat -> list fact),
+  check cr = true -> alias_free cr = true -> atom_apps_bound cr = true ->
+  head_apps_ok cr = true -> let_ordered cr = true ->
+  eval_clause Sneg sel (replace_wildcards cr) = None ->
+  (exists j p s, nth_error (cbody (replace_wildcards cr)) j = Some p /\
+                 sat (fun f => In f Sneg) sel 0 (firstn j (cbody (replace_wildcards cr))) [] s /\
+                 value_error s p)
+  \/ (exists s, sat (fun f => In f Sneg) sel 0 (cbody (replace_wildcards cr)) [] s /\
+        ((exists t, In t (aargs (chead cr)) /\ fn_error s t)
+         \/ (exists j x t s', nth_error (clet cr) j = Some (x, t) /\
+                               run_let s (firstn j (clet cr)) = Some s' /\ fn_error s' t))).
+Proof. exact accepted_eval_no_unbound_error_lemma. Qed.
+Print Assumptions accepted_eval_no_unbound_error.
+
+Example accepted_eval_no_unbound_error_hyps :
+  check (rewrite divz) = true /\ alias_free (rewrite divz) = true /\ atom_apps_bound (rewrite divz) = true /\
+  head_apps_ok (rewrite divz) = true /\ let_ordered (rewrite divz) = true /\
+  eval_clause [] (fun _ => [(1, [num 4])]) (replace_wildcards (rewrite divz)) = None.
+Proof. vm_compute. repeat split; reflexivity. Qed.
 
 (* ---- accepted_faithful, soundness half: NO LITERAL IS IGNORED. For every clause c as written
    that analysis accepts (alias-free after rewriting), on every store: every solution s that the
@@ -222,3 +253,57 @@ Theorem accepted_faithful_sound :
   decl_sol Sneg I c (restrict (named_vars c) s).
 Proof. exact accepted_sound_lemma. Qed.
 Print Assumptions accepted_faithful_sound.
+
+(* ---- accepted_faithful: solutions of the join = declarative solutions of the clause as written.
+   For every clause c that analysis accepts (alias-free after rewriting), on every store on which
+   the left-to-right join of the rewritten, wildcard-replaced clause returns without error:
+   (1) every computed solution, restricted to the named variables of c, is a declarative solution
+       of c (every literal of c holds, wildcards existential inside their literal);
+   (2) every declarative solution of c is computed: some solution of the join gives the named
+       variables of c exactly the same values.
+   So the order RewriteClause chose, the delaying of negated atoms and the fresh names of
+   ReplaceWildcards do not change the meaning of the clause: conjunction is order independent
+   for the orders CheckRule accepts. *)
+Theorem accepted_faithful :
+  forall (c : clause) (Sneg I : list fact) (sols : list subst),
+  accepted c = true -> alias_free (rewrite c) = true ->
+  solve Sneg (fun _ => I) 0 (cbody (replace_wildcards (rewrite c))) [[]] = Some sols ->
+  (forall s, In s sols -> decl_sol Sneg I c (restrict (named_vars c) s)) /\
+  (forall sigma, decl_sol Sneg I c sigma ->
+     exists s, In s sols /\ forall x, In x (named_vars c) -> lookup x s = lookup x sigma).
+Proof.
+  intros c Sneg I sols Hacc Haf Hsol. split.
+  - intros s Hs. exact (accepted_sound_lemma c Sneg I sols s Hacc Haf Hsol Hs).
+  - intros sigma Hd. exact (accepted_complete_lemma c Sneg I sols sigma Hacc Haf Hsol Hd).
+Qed.
+Print Assumptions accepted_faithful.
+
+(* the hypotheses are satisfiable by a clause with a wildcard and a delayed negated atom (F3a:
+   p0(X) :- p1(X), !p4(X,_).) and by one whose premises are reordered (F3c) *)
+Example accepted_faithful_full_hyps :
+  (accepted f3a = true /\ alias_free (rewrite f3a) = true /\
+   solve f3a_edb (fun _ => f3a_edb) 0 (cbody (replace_wildcards (rewrite f3a))) [[]] = Some [[(0, num 1)]] /\
+   named_vars f3a = [0])
+  /\ (accepted f3c = true /\ alias_free (rewrite f3c) = true /\
+      cbody (rewrite f3c) <> cbody f3c /\
+      solve f3c_edb (fun _ => f3c_edb) 0 (cbody (replace_wildcards (rewrite f3c))) [[]]
+        = Some [[(0, num 2); (1, num 1)]]).
+Proof. vm_compute. repeat split; try reflexivity. discriminate. Qed.
+
+(* ---- accepted_faithful_facts: the same at the level of derived facts (what the harness
+   observes). For every accepted clause c (alias-free after rewriting) and every store on which
+   C01's eval_clause of the rewritten, wildcard-replaced clause returns without error, the facts it
+   derives are exactly the head instances of c AS WRITTEN under the declarative reading. *)
+Theorem accepted_faithful_facts :
+  forall (c : clause) (Sneg I fs : list fact),
+  accepted c = true -> alias_free (rewrite c) = true ->
+  eval_clause Sneg (fun _ => I) (replace_wildcards (rewrite c)) = Some fs ->
+  forall f, In f fs <-> decl_derives Sneg I c f.
+Proof. exact accepted_facts_lemma. Qed.
+Print Assumptions accepted_faithful_facts.
+
+Example accepted_faithful_facts_hyps :
+  accepted letc = true /\ alias_free (rewrite letc) = true /\
+  eval_clause [] (fun _ => [(1, [num 4])]) (replace_wildcards (rewrite letc)) = Some [(0, [num 9; num 5])]
+  /\ eval_fixed f3a f3a_edb = Some [(0, [num 1])].
+Proof. vm_compute. repeat split; reflexivity. Qed.
